@@ -175,7 +175,7 @@ Definition tree_gglwe_keyswitch (fam n : Z) (res a key : infos) : tree :=
 (* external_product/gglwe.rs, ggsw.rs: glwe_external_product on every (row, col) *)
 Definition tree_gglwe_external_product (fam n : Z) (res a ggsw : infos) : tree :=
   Seq (Need (gglwe_external_product_tmp_bytes fam n res a ggsw))
-      (Loop (nat_of (i_dnum res * i_rank_in res)) (Scoped (tree_glwe_external_product fam n res a ggsw))).
+      (Loop (nat_of (Z.min (i_dnum res) (i_dnum a) * i_rank_in res)) (Scoped (tree_glwe_external_product fam n res a ggsw))).
 Definition tree_ggsw_external_product (fam n : Z) (res a ggsw : infos) : tree :=
   Seq (Need (ggsw_external_product_tmp_bytes fam n res a ggsw))
       (Loop (nat_of (Z.min (i_dnum res) (i_dnum a) * (i_rank res + 1))) (Scoped (tree_glwe_external_product fam n res a ggsw))).
@@ -209,17 +209,29 @@ Definition tree_glwe_automorphism_add (fam n : Z) (res a key : infos) : tree :=
 (* glwe_trace.rs: glwe_trace_assign_default(res, skip, keys, scratch), same-radix branch (res.base2k = key.base2k):
    steps = log_n - skip iterations of glwe_rsh + glwe_automorphism_add_assign *)
 Definition t_glwe_trace_assign_same (fam n : Z) (res key : infos) (steps : Z) : tree :=
-  Seq (Need (glwe_trace_tmp_bytes fam n res res key))
+  Seq (Need (glwe_trace_assign_same_radix_tmp_bytes fam n res key))
       (Loop (nat_of steps) (Seq (Scoped (tree_glwe_rsh fam n res)) (Scoped (tree_glwe_automorphism_add fam n res res key)))).
 
-(* glwe_trace_default(res, skip, a, keys, scratch) when a, res and the keys share one radix:
-   tmp = take_glwe(k = max(a.max_k, res.max_k)), glwe_copy, glwe_trace_assign(tmp), glwe_copy *)
+(* glwe_trace_assign_default in general: a cross-radix res is first re-normalised into a temporary of the key's radix *)
+Definition tree_glwe_trace_assign (fam n : Z) (res key : infos) (steps : Z) : tree :=
+  if negb (i_base2k res =? i_base2k key) then
+    Seq (Need (glwe_trace_tmp_bytes fam n res res key))
+   (Seq (t_take_glwe (conv_layout res key))
+   (Seq (Scoped (t_glwe_normalize fam n (i_rank res + 1)))
+   (Seq (Scoped (t_glwe_trace_assign_same fam n (conv_layout res key) key steps))
+        (Scoped (t_glwe_normalize fam n (i_rank res + 1))))))
+  else t_glwe_trace_assign_same fam n res key steps.
+
+(* glwe_trace_default(res, skip, a, keys, scratch): tmp = take_glwe(key radix, k = max(a.max_k, res.max_k)),
+   glwe_copy or glwe_normalize into it, glwe_trace_assign(tmp), glwe_copy or glwe_normalize out of it *)
 Definition tmp_layout (res a key : infos) : infos :=
   mk_glwe_layout (i_n res) (i_base2k key) (Z.max (i_max_k a) (i_max_k res)) (i_rank res).
-Definition tree_glwe_trace_same (fam n : Z) (res a key : infos) (steps : Z) : tree :=
+Definition tree_glwe_trace (fam n : Z) (res a key : infos) (steps : Z) : tree :=
   Seq (Need (glwe_trace_tmp_bytes fam n res a key))
   (Seq (t_take_glwe (tmp_layout res a key))
-       (Scoped (t_glwe_trace_assign_same fam n (tmp_layout res a key) key steps))).
+  (Seq (if negb (i_base2k a =? i_base2k key) then Scoped (t_glwe_normalize fam n (i_rank res + 1)) else Nop)
+  (Seq (Scoped (t_glwe_trace_assign_same fam n (tmp_layout res a key) key steps))
+       (if negb (i_base2k res =? i_base2k key) then Scoped (t_glwe_normalize fam n (i_rank res + 1)) else Nop)))).
 
 (* operations/glwe.rs: glwe_mul_const(cnv_offset, res, a, b, scratch) *)
 Definition tree_glwe_mul_const (fam n : Z) (res a : infos) (b_len cnv_offset : Z) : tree :=
